@@ -425,14 +425,14 @@ Definition norm_axis (rank : nat) (a : Z) : option nat :=
   let a' := if a <? 0 then Z.of_nat rank + 1 + a else a in
   if (a' <? 0) || (Z.of_nat rank <? a') then None else Some (Z.to_nat a').
 
-(** [output_axis = None] means "the (normalised) input axis"; it is *not* range-checked
-    against the operand's output rank by the constructor *)
+(** [output_axis = None] means "the (normalised) input axis"; like an explicit axis it must
+    not exceed the operand's output rank (ValueError, after fix 760899e) *)
 Definition drep_axes (ri ro : nat) (ia : Z) (oa : option Z) : option (nat * nat) :=
   match norm_axis ri ia with
   | None => None
   | Some ki =>
       match oa with
-      | None => Some (ki, ki)
+      | None => if (ro <? ki)%nat then None else Some (ki, ki)
       | Some z => option_map (fun ko => (ki, ko)) (norm_axis ro z)
       end
   end.
